@@ -20,7 +20,8 @@ RULE = ("(i) built-ins: filters built from length()/count()/value() with argumen
         "NOTHING singleton; NodesType = a nodelist whose (location, value identity) sequence equals the model's; LogicalType = exactly "
         "True/False of type bool. (iii) the child is selected iff the scripted constant result, interpreted per the declared result type, "
         "makes the filter true. Non-trivial: a conversion happened (query->value, query->logical, nodes-call->logical, empty->nothing) or a "
-        "built-in received a non-container; distinct by (registry, AST, child). ledger = (declared type x argument shape x child kind).")
+        "built-in received a non-container; distinct by (registry, AST, child). ledger = (declared type x argument shape x child kind)."
+        " One case in eight evaluates one compiled query lazily over two different documents advanced alternately; both selections must equal the model's.")
 ASSUMPTIONS = ["reference semantics vf/oracle/sem.py (function-call conversions of RFC 9535 2.4.1-2.4.2)",
                "evaluation order and short-circuiting are not specified: real calls must be a subset of the calls the model predicts (which evaluates every operand)"]
 DECIDING_MONITORS = ["M-find", "M-probe-call"]
@@ -264,10 +265,40 @@ def run_shard(spec, rec):
         sc.predicted.clear()
         del calls[:]
         rec.wal({"query": text, "child": D.short(child)})
+        interleaved = R.random() < 0.12
         try:
             with guard(30):
                 want = mon.want_sig(model.find(q, doc))
-                o = mon.observe(env.find, text, doc)
+                if interleaved:
+                    # two lazy evaluations of ONE compiled query over two different documents, advanced alternately: '$' and '@'
+                    # inside the function arguments of each must keep denoting that evaluation's own document
+                    other_doc = [D.deep_copy(R.choice(KIDS)) for _ in range(R.randint(1, 3))] + [D.deep_copy(child)]
+                    want_other = mon.want_sig(model.find(q, other_doc))
+
+                    def alternate():
+                        c = env.compile(text)
+                        it_a, it_b = iter(c.finditer(doc)), iter(c.finditer(other_doc))
+                        out_a, out_b = [], []
+                        live = [(it_a, out_a), (it_b, out_b)]
+                        while live:
+                            for pair in list(live):
+                                n_ = next(pair[0], None)
+                                if n_ is None:
+                                    live.remove(pair)
+                                else:
+                                    pair[1].append(n_)
+                        return out_a, out_b
+                    o = mon.observe(alternate)
+                    rec.feat("evaluated-interleaved")
+                    if o[0] == "ok":
+                        got_other = mon.sig(o[1][1])
+                        o = ("ok", o[1][0])
+                        if got_other != want_other:
+                            rec.violation("selection:interleaved-evaluations", {"query": text, "document": jsonable(other_doc), "other_document": jsonable(doc),
+                                                                                "expected": mon.locs_only(want_other), "observed": mon.locs_only(got_other)})
+                    del calls[:]
+                else:
+                    o = mon.observe(env.find, text, doc)
         except CaseTimeout:
             rec.timeout(text)
             continue
@@ -285,7 +316,9 @@ def run_shard(spec, rec):
             rec.violation("exception:" + type(o[1]).__name__, dict(wit, observed=mon.describe_outcome(o)))
             continue
         got = mon.sig(o[1])
-        if got != want:
+        if got != want and interleaved:
+            rec.violation("selection:interleaved-evaluations", dict(wit, expected=mon.locs_only(want), observed=mon.locs_only(got)))
+        elif got != want:
             rec.violation("selection:" + ("builtin" if builtin_only else "probe-result-%s" % ret), dict(wit, expected=mon.locs_only(want), observed=mon.locs_only(got)))
         for (name_, sig_, nargs) in calls:
             rec.monitor("M-probe-call")
